@@ -251,6 +251,16 @@ def bytes_method(ex, b, name, args, kwargs):
                 return bytes(b.conc).decode(*[a for a in args if isinstance(a, str)])
             except UnicodeDecodeError:
                 ex.throw('UnicodeDecodeError', 'invalid')
+        enc = next((a for a in args if isinstance(a, str)), kwargs.get('encoding', 'utf-8'))
+        errs = args[1] if len(args) > 1 and isinstance(args[1], str) else kwargs.get('errors', 'strict')
+        if errs == 'strict' and enc.lower().replace('_', '-') in ('ascii', 'us-ascii', 'utf-8', 'utf8') \
+                and not getattr(b, 'ascii_only', False):
+            # octets above 7Fh: ascii always fails, utf-8 fails for some continuations - an exceptional path
+            # exists as soon as one such octet can occur
+            i = ex.fresh_int('decode!i', 0, None)
+            bad = mk_bool(z3.And(zint(i) < N.zlen(b), N._z(b.at(zint(i))) >= 128))
+            if ex.branch(bad):
+                ex.throw('UnicodeDecodeError', 'invalid start byte')
         return OPAQUE
     if name == 'hex':
         if b.conc is not None:
